@@ -7,6 +7,8 @@ CONSTANTS
   Mutex = TRUE
   ErrsCloser = "postgen"
   MainReadsErrs = TRUE
+  GenVariants = {1}
+  SlotRelease = "deferred"
   SkipRule = "coded"
   TwoRuns = TRUE
   EmitCases = FALSE
